@@ -6,6 +6,7 @@ from vf.tape import Fail, notrace
 
 PROPERTY = 'C03'
 ES = ['e0', 'e1', 'e2']
+ES4 = ES + ['e3']       # e3: a newcomer that connects during the step
 
 
 def h(t, part):
@@ -55,7 +56,7 @@ def h(t, part):
 
     def recipients():
         """which transports got exactly which packets since the last take (multiset per transport)"""
-        return {e: [worlds.pk(p) for p in w.take(e)] for e in ES}
+        return {e: [worlds.pk(p) for p in w.take(e)] for e in (ES4 if len(sids) > 3 else ES)}
 
     def expect(to, skip):
         if to is None:
@@ -72,7 +73,7 @@ def h(t, part):
         w.call(w.s.emit('p', tag, to=to, skip_sid=skip))
         got = recipients()
         exp = expect(to, skip)
-        for c, e in enumerate(ES):
+        for c, e in enumerate(ES4 if len(sids) > 3 else ES):
             want = [(packet.EVENT, '/', None, ['p', tag])] if c in exp else []
             if got[e] != want:
                 kind = 'missing' if (c in exp and not got[e]) else 'duplicate' if len(got[e]) > 1 else \
@@ -85,7 +86,8 @@ def h(t, part):
     OPS = [('enter', c, r) for c in range(3) for r in range(3)] + [('leave', c, r) for c in range(3) for r in range(3)] + \
           [('close', r) for r in range(4)] + [('disconnect', c) for c in range(3)] + \
           [('emit', to, sk) for to in range(8) for sk in range(3)] + \
-          [('unknown-namespace', k) for k in range(3)] + [('other-namespace', k) for k in range(2)]
+          [('unknown-namespace', k) for k in range(3)] + [('other-namespace', k) for k in range(2)] + \
+          [('newcomer', k) for k in range(2)]
     if 'first' in part:
         t.force([part['first']])
     for step in range(part['n']):
@@ -124,6 +126,20 @@ def h(t, part):
             r = probe(to, skip, tag)
             if r:
                 return r
+        elif o[0] == 'newcomer':
+            # a client connects and is given a session id that is already the name of a room (predictable / application-
+            # chosen ids): it joins that room, nobody leaves it
+            if len(sids) == 3:
+                name = ['r1', 'fresh-name'][o[1]]
+                w.eio.forced_ids = [name]
+                w.open('e3')
+                got = w.connect('e3', '/')
+                if got != name:
+                    return Fail('rooms:newcomer-sid', 'expected the forced session id %r, got %r' % (name, got))
+                sids.append(got)
+                live.add(3)
+                model.setdefault(name, set()).add(3)
+                recipients()
         elif o[0] == 'unknown-namespace':
             k = o[1]
             if k == 0:
@@ -148,7 +164,7 @@ def h(t, part):
         r = probe(to, skip, 'final')
         if r:
             return r
-    for c in range(3):
+    for c in range(len(sids)):
         got = set(w.s.rooms(sids[c]))
         want = {r for r, ms in model.items() if c in ms}
         if got != want:
@@ -168,7 +184,7 @@ def h(t, part):
     return None
 
 
-NOPS = 9 + 9 + 4 + 3 + 24 + 3 + 2
+NOPS = 9 + 9 + 4 + 3 + 24 + 3 + 2 + 2
 
 
 def parts(tier):
@@ -193,7 +209,7 @@ META = dict(
                 'are covered as far as the observations are functions of the state.',
     bounds={'quick': '3 clients x 3 rooms (string, integer, session-id-named) on / (+ client 1 on /a): 2^7 pre-states (incl. client 0 having left its personal room) x '
                      '2 x %d operations (enter, leave, close incl. unknown room, disconnect by 3 causes, emit with 8 '
-                     'targets x 3 skip_sid forms, operations on an unknown namespace and on /a) x 9 probe emits' % NOPS,
+                     'targets x 3 skip_sid forms, operations on an unknown namespace and on /a, a fourth client connecting under a session id that is already a room name) x 9 probe emits' % NOPS,
             'thorough': 'the same pre-states, two consecutive operations'},
     outside=['empty-list and falsy targets (broadcast by definition)', 'tuple room names', 'more than 3 clients / 3 rooms',
              'pub/sub managers (C07)'],
